@@ -568,6 +568,7 @@ def run(prog, chk, tier):
     ecdh_rules(prog, chk, "C17")
     equality_rules(prog, chk, "C17")
     c09.validation_chain_rules(prog, chk, "C17")
+    c09.decoded_coordinates_rules(prog, chk, "C17")
     if tier == "thorough":
         poly_rules(prog, chk, "C17")
     chk.assume("integers handed to the public point constructors are canonical (0 <= v < p): keys loaded through VerifyingKey are range-checked, generator literals are audited")
